@@ -45,13 +45,16 @@ SPEC = {
         "are float64 and p-norms are compared at 1e-6; complex scales are not generated",
         "normalisation: the property speaks about vectors with norm >= eps and about zero vectors; 0 < norm < eps is reported in the "
         "evidence histogram and only compared against the model (theorem normalize_small gives the value)",
-        "negative norm orders are generated on vectors without zero entries only (IEEE 0**p = inf, Mathlib 0**p = 0)",
+        "negative norm orders: initial vectors have no zero entries; a vector that acquires a zero entry later has IEEE norm 0 "
+        "(0**p = inf) and falls in the 0 <= norm < eps gap the property does not speak about (Mathlib reads 0**p = 0)",
     ],
 }
 DRIVER = "drivers/C16.lean"
 ERRS = {"RuntimeError", "ValueError", "TypeError", "AttributeError", "IndexError", "KeyError"}
 TOL_MODEL = 1e-9
 TOL_NORM = 1e-6
+STATS = {"norm_runs": 0, "norm_fibres_checked_at_1e-6": 0, "zero_fibres": 0, "fibres_with_0<=norm<eps (not covered)": 0,
+         "clamp_runs": 0}
 
 
 def f2h(x: float) -> str:
@@ -120,8 +123,10 @@ def make_state_probe(log):
 def pynorm(xs, p):
     if p == math.inf:
         return max([abs(x) for x in xs] + [0.0])
+    if p < 0 and any(x == 0.0 for x in xs):
+        return 0.0                          # IEEE: 0**p = inf, inf**(1/p) = 0
     s = math.fsum(abs(x) ** p for x in xs)
-    return s ** (1.0 / p)
+    return s ** (1.0 / p) if s > 0 else 0.0
 
 
 class Real:
@@ -269,6 +274,7 @@ class Real:
                 h = Clamping(self.mod, self.path, lo, hi, train_update=tr, eval_update=ev, as_prehook=a, prepend=pp)
 
                 def check(before, after, lo=lo, hi=hi):
+                    STATS["clamp_runs"] += 1
                     if lo is not None and bool((after < lo).any()):
                         return f"below-min({float(after.min())}<{lo})"
                     if hi is not None and bool((after > hi).any()):
@@ -284,22 +290,24 @@ class Real:
                 a, pp, tr, ev = tb(tok[7]), tb(tok[8]), tb(tok[9]), tb(tok[10])
                 h = Normalization(self.mod, self.path, p, sc, dim, eps, train_update=tr, eval_update=ev,
                                   as_prehook=a, prepend=pp)
-                me = weakref.ref(self)
 
                 def check(before, after, p=p, sc=sc, eps=eps, groups=groups):
                     bf, af = before.reshape(-1).tolist(), after.reshape(-1).tolist()
+                    STATS["norm_runs"] += 1
                     for g in groups:
                         x, y = [bf[i] for i in g], [af[i] for i in g]
                         n = pynorm(x, p)
                         if all(v == 0.0 for v in x):
+                            STATS["zero_fibres"] += 1
                             if any(v != 0.0 for v in y):
                                 return f"zero-vector-moved({y})"
                         elif n >= eps and n > 0:
                             m = pynorm(y, p)
+                            STATS["norm_fibres_checked_at_1e-6"] += 1
                             if not abs(m - abs(sc)) <= TOL_NORM * max(1.0, abs(sc)):
                                 return f"norm({m})!=|scale|({abs(sc)})"
                         else:
-                            me().small += 1
+                            STATS["fibres_with_0<=norm<eps (not covered)"] += 1
                     return ""
             if a:
                 self.pre_set.add(idx)
@@ -652,6 +660,10 @@ def value_program(rng, maxlen=16):
             dim_s = "N" if dim is None else ",".join(map(str, dim))
             p_s = "inf" if p == math.inf else f2h(p)
             specs.append(f"vmk norm {p_s} {f2h(sc)} {f2h(eps)} {gs} {dim_s} {b(a)} {b(pp)} {b(tr)} {b(ev)}")
+    if any(x.startswith("vmk norm") for x in specs):
+        # forward's constant must not cancel a normalised component (±|scale|, 0) up to rounding noise, which a later
+        # normalisation would amplify: the comparison with the Float model would then be ill-conditioned
+        delta = rng.choice([0.0, 0.375, -0.8125, 2.75])
     shp = "x".join(map(str, shape))
     lines = [f"begin {f2h(delta)} {vals_s(rand_vals(rng, shape, nonzero=neg))} {shp} {path} {kind}"]
     lines += specs
@@ -708,9 +720,9 @@ def explore(ctx) -> Exploration:
     ncorpus = len(cases)
     exh = exhaustive_single_hook() + pairs_order_cases()
     cases += exh
-    nrand = 500 if not thorough else 4000
+    nrand = 500 if not thorough else 2500
     rnd = [random_program(rng) for _ in range(nrand)]
-    nval = 500 if not thorough else 4000
+    nval = 500 if not thorough else 2500
     val = [value_program(rng) for _ in range(nval)]
     cases += rnd + val
     for c in cases:
@@ -734,6 +746,7 @@ def explore(ctx) -> Exploration:
                "eps incl. large ones, zero vectors; forward adds a constant so that pre/post placement is visible in the values); a "
                "case is non-trivial when at least one hook actually ran; distinct = distinct protocol text")
     ex.samples = [exh[0], rnd[0], val[0]]
+    ex.extra["post_condition_checks"] = dict(STATS)
     ex.extra["streams"] = {"corpus": ncorpus, "exhaustive": len(exh), "random_programs": len(rnd), "value_programs": len(val)}
     return ex
 
